@@ -404,6 +404,20 @@ def r15_1_rewriters_stop_at_locked(ctx: Ctx) -> None:
 # ------------------------------------------------------------------ R15.2
 
 
+def _is_target_of(p: Path, e: ast.expr | None, subject: str) -> bool:
+    """Does ``e`` denote ``<subject>.target`` (a pattern capture of it, a local bound to it, or the attribute)?"""
+    if e is None:
+        return False
+    if isinstance(e, ast.Name):
+        b = env_at(p).get(e.id)
+        if isinstance(b, tuple):
+            return b[0] == "capture" and src(b[1]) == subject and b[2] == ("target",)
+        if isinstance(b, ast.expr):
+            return src(b) == f"{subject}.target"
+        return False
+    return src(e) == f"{subject}.target"
+
+
 def r15_2_simplification_shapes(ctx: Ctx) -> None:
     run, m = ctx.run, ctx.m
     run.rule(
@@ -426,10 +440,9 @@ def r15_2_simplification_shapes(ctx: Ctx) -> None:
         if isinstance(v, ast.Constant) and v.value is None:
             run.ok("R15.2", inst)
         elif isinstance(v, ast.Name):
-            bound = env_at(p).get(v.id)
-            is_target_capture = isinstance(bound, tuple) and bound[0] == "capture" and src(bound[1]) == tgt and bound[2] == ("target",)
+            is_target_capture = _is_target_of(p, v, tgt)
             in_transfer_arm = any(s.kind == "case" and s.value and "Transfer" in src(s.node.pattern) for s in p.steps)  # type: ignore[union-attr]
-            same_engine = has_fact(facts, "EQ", tuple(sorted((dest, f"{v.id}.engine"))), True)
+            same_engine = has_fact(facts, "EQ", tuple(sorted((dest, f"{v.id}.engine"))), True) or has_fact(facts, "EQ", tuple(sorted((dest, f"{tgt}.target.engine"))), True)
             not_locked = has_fact(facts, "TRUTH", (f"{tgt}.is_locked",), False)
             if is_target_capture and in_transfer_arm and same_engine and not_locked:
                 run.ok("R15.2", inst, {"returns": f"{v.id} (target of a transfer, engine == destination)"})
@@ -445,8 +458,7 @@ def r15_2_simplification_shapes(ctx: Ctx) -> None:
                 )
         elif isinstance(v, ast.Call) and call_attr(v) == "simplify":
             a0 = v.args[0] if v.args else None
-            bound = env_at(p).get(a0.id) if isinstance(a0, ast.Name) else None
-            ok = isinstance(bound, tuple) and bound[0] == "capture" and bound[2] == ("target",) and len(v.args) > 1 and src(v.args[1]) == dest
+            ok = _is_target_of(p, a0, tgt) and len(v.args) > 1 and src(v.args[1]) == dest
             ok = ok and has_fact(facts, "TRUTH", (f"{tgt}.is_locked",), False)
             if ok:
                 run.ok("R15.2", inst)
@@ -508,9 +520,9 @@ def r15_2_simplification_shapes(ctx: Ctx) -> None:
             run.ok("R15.2", inst)
         elif isinstance(v, ast.Call) and call_attr(v) == "simplify":
             a0 = v.args[0] if v.args else None
-            bound = env_at(p).get(a0.id) if isinstance(a0, ast.Name) else None
-            ok = isinstance(bound, tuple) and bound[0] == "capture" and bound[2] == ("target",)
-            ok = ok and has_fact(path_facts(p), "EQ", tuple(sorted((f"{mt}.engine", f"{a0.id}.engine"))), True)
+            ok = _is_target_of(p, a0, mt)
+            fs = path_facts(p)
+            ok = ok and (has_fact(fs, "EQ", tuple(sorted((f"{mt}.engine", f"{src(a0)}.engine"))), True) or has_fact(fs, "EQ", tuple(sorted((f"{mt}.engine", f"{mt}.target.engine"))), True))
             if ok:
                 run.ok("R15.2", inst)
             else:
@@ -695,6 +707,13 @@ def r17_conform(ctx: Ctx) -> None:
                 if "Chain" in src(case.pattern) and "BinaryOperationRelation" in src(case.pattern) and any(a in case.body for a in comp_true):
                     ok = len(comp_true) == 1
     default_false = any(isinstance(n, ast.Assign) and any(src(t) == comp_v for t in n.targets) and isinstance(n.value, ast.Constant) and n.value.value is False for n in ast.walk(ask.node))
+    if not (ok and default_false):
+        # the same condition written as one boolean expression
+        for n in ast.walk(ask.node):
+            if isinstance(n, ast.Assign) and any(src(t) == comp_v for t in n.targets) and isinstance(n.value, ast.BoolOp) and isinstance(n.value.op, ast.And):
+                tests = sorted(src(x) for x in n.value.values)
+                if tests == sorted(["isinstance(skip_to, BinaryOperationRelation)", "isinstance(skip_to.operation, Chain)"]):
+                    ok = default_false = True
     if ok and default_false:
         run.ok("R17.3", "apply_skip:is_compound")
     else:
